@@ -462,6 +462,7 @@ class ConfigRun(object):
                 self.fetch = refclient.wsgi_fetcher(app)
                 self.up = up
                 self._load_documents()
+                self._check_resolution_consistency()
                 lg.set_levels(self._advertised_resolutions())
                 self._flip_analysis()
                 for pick in self.case['picks']:
@@ -508,6 +509,32 @@ class ConfigRun(object):
                 self.violation('C02/wmsc/capabilities-unusable', '%d TileSets for layer lyr' % len(ts), None)
         self.kml = refclient.KMLClient(f)
         self.kml_root = 'http://localhost/kml/lyr/%s/0/0/0.kml' % grid_path_name(self.case, self.facts, o['kml_grid_names'])
+
+    def _check_resolution_consistency(self):
+        """Two documents of the same layer / grid that print almost - but not - the same resolution for a level cannot
+        both be exact (generated grids have no two levels closer than a factor 1.25)."""
+        lists = []
+        if self.tms_map is not None:
+            lists.append(('tms', [t.upp for t in self.tms_map.tilesets]))
+        for enc, c in sorted(self.wmts.items()):
+            if SIG_WMTS_UNITS in self.open and self._non_metre_projected():
+                continue
+            for tms, _ in c.layers['lyr'].links:
+                lists.append(('wmts-' + enc, [m.res for m in c.matrix_sets[tms].matrices]))
+        if self.wmsc_ts is not None:
+            lists.append(('wmsc', list(self.wmsc_ts.resolutions)))
+        for i in range(len(lists)):
+            for j in range(i + 1, len(lists)):
+                for ra in lists[i][1]:
+                    for rb in lists[j][1]:
+                        d = abs(math.log(float(ra) / float(rb)))
+                        if 1e-9 < d < 0.03:
+                            a, b_ = sorted([lists[i][0].split('-')[0], lists[j][0].split('-')[0]])
+                            self.violation('C02/cross/%s-vs-%s/resolution-differs' % (a, b_),
+                                           'the %s document gives a level the resolution %r, the %s document %r (relative '
+                                           'difference %.3g): a tile in column / row n is displaced by n x %.3g tile spans for '
+                                           'one of the two clients' % (lists[i][0], float(ra), lists[j][0], float(rb), d, d), None)
+                            return
 
     def _advertised_resolutions(self):
         res = set()
@@ -985,6 +1012,10 @@ class ConfigRun(object):
                          for (li, x, y) in self.wmsc.locate(self.wmsc_ts, rect, loose, MIN_OVERLAP_PX)]
         # two documents that give the very same (non-blank, judged) image slightly different rectangles cannot both be exact
         for tw in near:
+            if tw.service.startswith('wmts') != tile.service.startswith('wmts') and self.flip_dev_px > 1e-7:
+                # rows counted from opposite ends: the tolerated inexactness of the y-flip (<= 0.05 px) explains a difference
+                self.stats.notes['near-twin-not-compared(inexact flip)'] += 1
+                continue
             status, arr2, problem = self.fetch_tile(tw)
             if arr2 is not None and arr2.shape == arr.shape and np.array_equal(arr2, arr):
                 dev = max(abs(float(p - q)) for p, q in zip(rect, tw.rect)) / float(rect[2] - rect[0]) * size[0]
